@@ -26,6 +26,10 @@ type vfC16Pre struct {
 	Kind  string `json:"kind"`
 	Dir   string `json:"dir"`             // sendrecv | sendonly | recvonly
 	Prefs []int  `json:"prefs,omitempty"` // indices into the local codecs of the kind; empty = no SetCodecPreferences
+	// NoPT: the preferences are passed without a payload type (PayloadType 0, full-form
+	// capability), the documented way to say "this codec, whatever number gets negotiated";
+	// they are set BEFORE the remote offer is applied.
+	NoPT bool `json:"no_pt,omitempty"`
 }
 
 type vfC16Case struct {
@@ -76,7 +80,7 @@ func vfC16Ch(c uint16) uint16 {
 	return c
 }
 
-func vfC16Check(v *vfT, round int, offer vfFamCOffer, earlier []vfFamCOffer, prefKinds map[string]bool, answer SessionDescription) {
+func vfC16Check(v *vfT, round int, offer vfFamCOffer, earlier []vfFamCOffer, prefKinds map[string]string, answer SessionDescription) {
 	parsed, err := answer.Unmarshal()
 	if err != nil {
 		v.Label("answer-unparsable")
@@ -95,9 +99,16 @@ func vfC16Check(v *vfT, round int, offer vfFamCOffer, earlier []vfFamCOffer, pre
 			break
 		}
 		sec := offer.Sections[i]
-		suffix := ""
-		if prefKinds[sec.Kind] {
-			suffix = "/with-codec-preferences" // a local transceiver of this kind had SetCodecPreferences applied
+		// suffix: a local transceiver of this kind had SetCodecPreferences applied. own: the
+		// classes whose recorded root cause is "a preference's own explicit payload type is kept";
+		// when every preference of the kind was payload-type-less that cause is absent, so such a
+		// violation gets its own key.
+		suffix, own := "", ""
+		switch prefKinds[sec.Kind] {
+		case "explicit", "mixed":
+			suffix, own = "/with-codec-preferences", "/with-codec-preferences"
+		case "pt-less":
+			suffix, own = "/with-codec-preferences", "/with-pt-less-codec-preferences"
 		}
 		if sec.Port0 == "rejected" {
 			// a retired offer section: JSEP says its contents are ignored; what the answer lists
@@ -165,7 +176,7 @@ func vfC16Check(v *vfT, round int, offer vfFamCOffer, earlier []vfFamCOffer, pre
 						}
 					}
 				}
-				v.Violation("C16/pt-not-offered"+suffix, "%s: answer section %d (mid %s, %s) lists payload type %d (%s/%d) which the offer does not contain; offered here: %+v", where, i, sec.Mid, sec.Kind, pt, mp.name, mp.clock, sec.Codecs)
+				v.Violation("C16/pt-not-offered"+own, "%s: answer section %d (mid %s, %s) lists payload type %d (%s/%d) which the offer does not contain; offered here: %+v", where, i, sec.Mid, sec.Kind, pt, mp.name, mp.clock, sec.Codecs)
 			}
 			mp, ok := maps[pt]
 			if !ok {
@@ -173,7 +184,7 @@ func vfC16Check(v *vfT, round int, offer vfFamCOffer, earlier []vfFamCOffer, pre
 				continue
 			}
 			if !strings.EqualFold(mp.name, oc.Name) || mp.clock != oc.Clock || vfC16Ch(mp.ch) != vfC16Ch(oc.Ch) {
-				v.Violation("C16/pt-maps-to-different-codec"+suffix, "%s: answer section %d (mid %s) maps payload type %d to %s/%d/%d, the offer maps it to %s/%d/%d", where, i, sec.Mid, pt, mp.name, mp.clock, mp.ch, oc.Name, oc.Clock, oc.Ch)
+				v.Violation("C16/pt-maps-to-different-codec"+own, "%s: answer section %d (mid %s) maps payload type %d to %s/%d/%d, the offer maps it to %s/%d/%d", where, i, sec.Mid, pt, mp.name, mp.clock, mp.ch, oc.Name, oc.Clock, oc.Ch)
 			}
 		}
 	}
@@ -207,7 +218,7 @@ func vfC16Run(v *vfT, c vfC16Case) {
 			v.Label("local-opus-registered-without-channels")
 		}
 	}
-	prefKinds := map[string]bool{}
+	prefKinds := map[string]string{} // kind -> explicit | pt-less | mixed
 	for _, p := range c.Pre {
 		kind := NewRTPCodecType(p.Kind)
 		locals := c.Local.Audio
@@ -226,13 +237,26 @@ func vfC16Run(v *vfT, c vfC16Case) {
 		if len(p.Prefs) > 0 {
 			var prefs []RTPCodecParameters
 			for _, i := range p.Prefs {
-				prefs = append(prefs, locals[((i%len(locals))+len(locals))%len(locals)].params(p.Kind))
+				l := locals[((i%len(locals))+len(locals))%len(locals)]
+				if p.NoPT {
+					l = vfFamCLongForm(p.Kind, l)
+					l.PT = 0
+				}
+				prefs = append(prefs, l.params(p.Kind))
 			}
 			if err := tr.SetCodecPreferences(prefs); err != nil {
 				v.Label("set-codec-preferences-refused")
 			} else {
 				v.Label("pre-existing-transceiver-with-preferences")
-				prefKinds[p.Kind] = true
+				how := "explicit"
+				if p.NoPT {
+					how = "pt-less"
+					v.Label("pre-existing-transceiver-with-pt-less-preferences")
+				}
+				if cur, ok := prefKinds[p.Kind]; ok && cur != how {
+					how = "mixed"
+				}
+				prefKinds[p.Kind] = how
 			}
 		}
 	}
@@ -319,7 +343,7 @@ func vfC16Reoffer(t *rapid.T, g *vfFamCOfferGen, first vfFamCOffer) vfFamCOffer 
 
 func TestVerif_C16_AnswerSubset(t *testing.T) {
 	vfProperty(t, "C16", vfOpts{
-		Rule: "local MediaEngine x 0..2 pre-existing transceivers (direction, optional SetCodecPreferences) x one or two sound foreign offers (first: 1..3 sections, sections behind the first one also as a=bundle-only with port 0 - JSEP max-bundle style or individually - or retired with port 0 outside the BUNDLE group; often two of one kind where the later one lists a subset / the same codecs under new numbers / a reversed list / an independent list; second: re-offer that keeps, narrows or extends sections and may add one) -> SetRemoteDescription, CreateAnswer (answer applied before the re-offer); non-trivial = at least one answer was produced and checked",
+		Rule: "local MediaEngine x 0..2 pre-existing transceivers (direction, optional SetCodecPreferences before the offer, with explicit local payload types or payload-type-less) x one or two sound foreign offers (first: 1..3 sections, sections behind the first one also as a=bundle-only with port 0 - JSEP max-bundle style or individually - or retired with port 0 outside the BUNDLE group; often two of one kind where the later one lists a subset / the same codecs under new numbers / a reversed list / an independent list; second: re-offer that keeps, narrows or extends sections and may add one) -> SetRemoteDescription, CreateAnswer (answer applied before the re-offer); non-trivial = at least one answer was produced and checked",
 		Assumptions: []string{"offers are sound (RFC 8843 / RFC 3264 §8.3.2): a payload type denotes one codec across sections and across the re-offer, static payload types keep their RFC 3551 meaning, every format has an rtpmap",
 			"answer sections are paired with offer sections by position (C07 owns the mirroring itself); rejected answer sections (port 0) and retired offer sections (port 0, not bundled: contents are ignored per JSEP) are skipped; a=bundle-only offer sections are live and checked",
 			"pion/sdp's parser is trusted for reading the answer"},
@@ -340,6 +364,7 @@ func TestVerif_C16_AnswerSubset(t *testing.T) {
 			}
 			if rapid.Bool().Draw(v.R, "withPrefs") {
 				p.Prefs = rapid.SliceOfN(rapid.IntRange(0, 7), 1, 3).Draw(v.R, "prefs")
+				p.NoPT = rapid.Bool().Draw(v.R, "noPT")
 			}
 			c.Pre = append(c.Pre, p)
 		}
